@@ -12,7 +12,13 @@ built-in defaults in force (DESIGN 3/C16).
     and, when retained, again later.  TLC replays the events through the specification's own actions.
 (B) the hooks double as scheduler gates: the worker is stepped hook by hook, so the schedules of TLC's counterexamples
     (gen cex) and random interleavings with producers, SendDirect, configuration updates and stop are imposed
-    deterministically (first trace); free-running concurrent runs form the second trace."""
+    deterministically (first trace); free-running concurrent runs form the second trace.
+    Real time is part of the property at one place only (a batch nobody adds to is flushed when the waiting time in
+    force has passed on the idle queue): the harness's reference clock logs a Tick for every full period the released
+    worker has not answered, and the specification does not let time pass beyond IdleSlack periods inside one wait.
+    Senders are also created through the public GetInstance (one child process each) with every kind of context option
+    and stopped through every function that stops them; records the pack layer cannot encode are mixed in."""
+import json, os
 import vf
 
 QUICK = ["MC_ZipSender.cfg", "MC_ZipSender_direct.cfg", "MC_ZipSender_mixed.cfg", "MC_ZipSender_reconf.cfg"]
@@ -20,6 +26,35 @@ THOROUGH = ["MC_ZipSender_thorough.cfg", "MC_ZipSender_thorough_direct.cfg", "MC
             "MC_ZipSender_thorough_reconf.cfg"]
 ASIS = [("MC_ZipSender_asis_alias.cfg", "HandedOverIsImmutable"), ("MC_ZipSender_asis_dalias.cfg", "HandedOverIsImmutable"),
         ("MC_ZipSender_asis_abandon.cfg", "ExactlyOnceInOrder"), ("MC_ZipSender_asis_zeroed.cfg", "DefaultsInForce")]
+
+
+def tick_selftest(run, out, meta):
+    """binding of the reference clock: a worker's idle wait padded with IdleSlack Ticks is still accepted, with one
+    more it is refused"""
+    slack = int([l for l in open(os.path.join(run.specdir, "Trace_ZipSender.cfg")).read().splitlines() if "IdleSlack" in l][0].split("=")[1])
+    for job in meta.get("jobs", []):
+        hists = vf.split_histories(open(os.path.join(out, job["trace"])).read().splitlines())
+        for h in hists:
+            if json.loads(h[0]).get("gen") != "reconf":
+                continue
+            for i in range(2, len(h)):
+                e, b = json.loads(h[i]), json.loads(h[i - 1])
+                if e.get("ev") == "Idle" and b.get("ev") == "Poll" and e["st"]["obs"]["maxWait"] > 0:
+                    tick = json.dumps({"ev": "Tick", "p": max(20, e["st"]["obs"]["maxWait"])}, separators=(",", ":"))
+                    res = {}
+                    for n in (slack, slack + 1):
+                        p = os.path.join(out, "_selftest_ticks_%d.ndjson" % n)
+                        open(p, "w").write("\n".join(h[:i] + [tick] * n + h[i:]) + "\n")
+                        st = run.trace_states
+                        acc, hwm, nn, r = run.validate_file(job["spec"], p)
+                        run.trace_states = st
+                        res[n] = acc
+                    run.selftests["Trace_ZipSender:reference_clock"] = {"ticks_within_slack_accepted": res[slack], "one_more_rejected": not res[slack + 1]}
+                    if not res[slack] or res[slack + 1]:
+                        raise vf.MachineryError("binding self-test of the reference clock failed: %s" % res)
+                    vf.log("SELFTEST Trace_ZipSender reference clock %s" % run.selftests["Trace_ZipSender:reference_clock"])
+                    return
+    raise vf.MachineryError("self-test found no idle wait in a history of gen reconf")
 
 
 def body(run):
@@ -55,6 +90,8 @@ def body(run):
         run.selftest(out, gate, gen="self", field="n")
         run.selftest(out, gate, gen="cex", field="raw")
         run.selftest(out, gate, gen="defaults", field="given")
+        run.selftest(out, gate, gen="api", field="via")
+        tick_selftest(run, out, gate)
     run.assumptions += [
         "a record's encoding is what the pack layer writes for it (pack.WritePack on an identical twin, computed by the harness "
         "before the record is handed over); the layout of a LogSinkPack itself is not this property's subject",
@@ -62,7 +99,18 @@ def body(run):
         "gzip bytes themselves are not specified; that they decompress to the payload is), and runs golib's own "
         "decompression and ZipPack.GetRecords on them: TLC compares count, status, payload bytes and the decoded [line, time, content length] list",
         "record times are virtual, >= 1 (0 is the implementation's 'no first record yet' marker) and below 2^30; the worker's "
-        "timed wait on the queue is real (<= 15 ms for explicit settings); no verdict depends on how long anything took",
+        "timed wait on the queue is real (<= 15 ms wherever the harness lets it expire)",
+        "the only judgement about real time: after releasing the held worker into its timed wait with a waiting time w > 0 in force, "
+        "the harness sleeps full periods of max(w, 20 ms) and logs a Tick after each one the worker has not answered; the "
+        "specification refuses the 61st Tick inside one wait (a wait that outlasts 60 periods >= 1.2 s of a waiting time <= 12 ms; "
+        "observed on the unchanged code under a load average above 100: at most 4).  The clock runs in the same process as the "
+        "worker: load delays both, a starved process stops the clock too -- load can only lose detection",
+        "a record the pack layer cannot encode (pack.WritePack panics on an identical twin: no tag map, nil pointer) must leave no "
+        "trace: nothing written, nothing counted; SendDirect may skip it or give up there with the panic reaching its caller "
+        "(what golib does: the packs handed over before are whole, the rest of the argument counts as never accepted)",
+        "senders of gen api are created by the public GetInstance in a child process each (the instance is process-wide); the child's "
+        "events are copied into the parent's trace unchanged; a worker that misses the stop request is ended afterwards through "
+        "StopForVerif (the missed request is already in the log)",
         "event order = order of appends to one mutex-protected log: producer events before the call, worker events after the "
         "step, the stop request around cancel(); the branch of the worker's select must be right for some stop state between its "
         "previous event and this one; a full queue's refusal is only exercised while the worker is held at a hook",
